@@ -4,14 +4,12 @@ import Gws.Lemmas.Deque.Ops
 
 An *id* is the ordinal (0-based, over the whole run) of the push/insert operation that created an
 element.  `SState`/`SInst.step` is the reference: every instance is a plain list of `(id, value)`
-pairs (plus the flag whether its slot array has been allocated, needed only to say when `reset` is
-allowed).  `MState`/`MInst.step` runs the same operations on the model, keeping for every instance a
+pairs.  `MState`/`MInst.step` runs the same operations on the model, keeping for every instance a
 map from ids to handles (the address the push/insert returned).  `clone` appends a copy of the current
 instance (with its id map) as a new instance, `use k` switches the current instance.
 
-The reference rejects (`none`) an operation that names an id that is not live in the current
-instance, a `use` of an instance that does not exist, and `reset` on a never-pushed-to zero value
-(where the code panics, `Deque.reset_unallocated_panics`); `run_refines` is about the accepted
+The reference rejects (`none`) only an operation that names an id that is not live in the current
+instance and a `use` of an instance that does not exist; `run_refines` is about the accepted
 sequences.
 -/
 
@@ -64,12 +62,11 @@ def splitId (id : Nat) : Seq → Option (Seq × Nat × Seq)
     else (splitId id s).map fun r => (e :: r.1, r.2.1, r.2.2)
 
 structure SInst where
-  alloc : Bool
   s : Seq
 
 def SInst.step (y : SInst) (n : Nat) : Op → Option (SInst × List Nat)
-  | .pushBack v => some ({ alloc := true, s := y.s ++ [(n, v)] }, [v])
-  | .pushFront v => some ({ alloc := true, s := (n, v) :: y.s }, [v])
+  | .pushBack v => some ({ s := y.s ++ [(n, v)] }, [v])
+  | .pushFront v => some ({ s := (n, v) :: y.s }, [v])
   | .popFront => some ({ y with s := y.s.tail }, [(y.s.head?.map (·.2)).getD 0])
   | .popBack => some ({ y with s := y.s.dropLast }, [(y.s.getLast?.map (·.2)).getD 0])
   | .insertAfter v id =>
@@ -80,7 +77,7 @@ def SInst.step (y : SInst) (n : Nat) : Op → Option (SInst × List Nat)
   | .moveToBack id => (splitId id y.s).map fun r => ({ y with s := r.1 ++ r.2.2 ++ [(id, r.2.1)] }, [])
   | .update id v => (splitId id y.s).map fun r => ({ y with s := r.1 ++ (id, v) :: r.2.2 }, [])
   | .remove id => (splitId id y.s).map fun r => ({ y with s := r.1 ++ r.2.2 }, [])
-  | .reset => if y.alloc then some ({ y with s := [] }, []) else none
+  | .reset => some ({ y with s := [] }, [])
   | .range k => some (y, (y.s.map (·.2)).take k)
   | .clone => none
   | .use _ => none
@@ -146,7 +143,7 @@ def MInst.step (x : MInst) (n : Nat) : Op → Option (MInst × List Nat)
   | .moveToBack id => (x.d.moveToBack (x.m id)).map fun d => ({ x with d := d }, [])
   | .update id v => (x.d.update (x.m id) v).map fun d => ({ x with d := d }, [])
   | .remove id => (x.d.remove (x.m id)).map fun d => ({ x with d := d }, [])
-  | .reset => x.d.reset.map fun d => ({ x with d := d }, [])
+  | .reset => some ({ x with d := x.d.reset }, [])
   | .range k => (x.d.range (takeCb k) ([], 0)).map fun r => (x, r.1)
   | .clone => none
   | .use _ => none
@@ -197,8 +194,7 @@ def MState.run : MState → List Op → Option (List Obs)
 /-- a run starts with one instance (number 0), no ids handed out -/
 def MState.init (d : Deque) : MState := { insts := [{ d := d, m := fun _ => 0 }], cur := 0, next := 0 }
 
-/-- `alloc` says whether the initial deque has its slot array allocated (`New`) or not (zero value) -/
-def SState.init (alloc : Bool) : SState := { insts := [{ alloc := alloc, s := [] }], cur := 0, next := 0 }
+def SState.init : SState := { insts := [{ s := [] }], cur := 0, next := 0 }
 
 /-! ### the refinement relation -/
 
@@ -250,13 +246,12 @@ structure RI (n : Nat) (x : MInst) (y : SInst) : Prop where
   len : x.d.length = (y.s.length : Nat)
   vals : ∀ e ∈ y.s, (x.d.load (x.m e.1)).value = e.2
   ids : ∀ e ∈ y.s, e.1 < n
-  alloc : y.alloc = true → x.d.elements ≠ []
 
 theorem RI.mono {n n' : Nat} {x : MInst} {y : SInst} (h : RI n x y) (hn : n ≤ n') : RI n' x y :=
-  ⟨h.inv, h.len, h.vals, fun e he => Nat.lt_of_lt_of_le (h.ids e he) hn, h.alloc⟩
+  ⟨h.inv, h.len, h.vals, fun e he => Nat.lt_of_lt_of_le (h.ids e he) hn⟩
 
 theorem RI.of_s_eq {n : Nat} {x : MInst} {y : SInst} {s' : Seq} (h : RI n x y) (hs : y.s = s') :
-    RI n x { alloc := y.alloc, s := s' } := by
+    RI n x { s := s' } := by
   subst hs; exact h
 
 theorem RI.split_inv {n : Nat} {x : MInst} {y : SInst} {sl sr : Seq} {id w : Nat} (h : RI n x y)
@@ -296,8 +291,8 @@ theorem observe_refines {n : Nat} {x : MInst} {y : SInst} (h : RI n x y) (ret : 
 theorem created_refines {n : Nat} {x : MInst} {y : SInst} (h : RI n x y) {p q : Seq} (hs : y.s = p ++ q)
     {d' : Deque} {a v : Nat} (hi : Inv d' [] (handles x.m p ++ a :: handles x.m q))
     (hl : d'.length = x.d.length + 1) (hv : (d'.load a).value = v)
-    (hvo : ∀ b, b ≠ a → (d'.load b).value = (x.d.load b).value) (al : Bool) :
-    ∃ x', x.created n (d', a) = some (x', [v]) ∧ RI (n + 1) x' { alloc := al, s := p ++ (n, v) :: q } := by
+    (hvo : ∀ b, b ≠ a → (d'.load b).value = (x.d.load b).value) :
+    ∃ x', x.created n (d', a) = some (x', [v]) ∧ RI (n + 1) x' { s := p ++ (n, v) :: q } := by
   have ha := hi.range a (by simp)
   have haddr := hi.addr_eq (a := a) (by simp)
   have hidp : ∀ e ∈ p, e.1 < n := fun e he => h.ids e (by simp [hs, he])
@@ -305,7 +300,7 @@ theorem created_refines {n : Nat} {x : MInst} {y : SInst} (h : RI n x y) {p q : 
   have hn := hi.nodup
   refine ⟨{ d := d', m := fun i => if i = n then a else x.m i }, ?_, ?_⟩
   · simp [MInst.created, Nat.ne_of_gt ha.1, haddr, hv]
-  · refine ⟨?_, ?_, ?_, ?_, fun _ => hi.elements_ne_nil (a := a) (by simp)⟩
+  · refine ⟨?_, ?_, ?_, ?_⟩
     · simpa [handles_fresh hidp, handles_fresh hidq] using hi
     · simp only [hl, h.len, hs, List.length_append, List.length_cons]; omega
     · intro e he
@@ -343,13 +338,13 @@ theorem inst_step_refines {n : Nat} {x : MInst} {y y' : SInst} {op : Op} {ret : 
     simp only [SInst.step, Option.some.injEq, Prod.mk.injEq] at hs
     obtain ⟨rfl, rfl⟩ := hs
     obtain ⟨d', a, hp, hi', hl', hv, hvo⟩ := pushBack_core h.inv v
-    obtain ⟨x', hc, hr⟩ := created_refines h (p := y.s) (q := []) (by simp) (by simpa using hi') hl' hv hvo true
+    obtain ⟨x', hc, hr⟩ := created_refines h (p := y.s) (q := []) (by simp) (by simpa using hi') hl' hv hvo
     exact ⟨x', by simp [MInst.step, hp, hc], by simpa [Op.creates] using hr⟩
   | pushFront v =>
     simp only [SInst.step, Option.some.injEq, Prod.mk.injEq] at hs
     obtain ⟨rfl, rfl⟩ := hs
     obtain ⟨d', a, hp, hi', hl', hv, hvo⟩ := pushFront_core h.inv v
-    obtain ⟨x', hc, hr⟩ := created_refines h (p := []) (q := y.s) (by simp) (by simpa using hi') hl' hv hvo true
+    obtain ⟨x', hc, hr⟩ := created_refines h (p := []) (q := y.s) (by simp) (by simpa using hi') hl' hv hvo
     exact ⟨x', by simp [MInst.step, hp, hc], by simpa [Op.creates] using hr⟩
   | popFront =>
     simp only [SInst.step, Option.some.injEq, Prod.mk.injEq] at hs
@@ -363,12 +358,12 @@ theorem inst_step_refines {n : Nat} {x : MInst} {y y' : SInst} {op : Op} {ret : 
       have hi := h.inv; have hl := h.len; rw [hys] at hi hl
       simp only [handles_cons] at hi
       have ha := hi.range (x.m e.1) (by simp)
-      obtain ⟨d', hu, hi', hl', hv, hne⟩ := unlink_inv (l := []) hi (by simpa using hl)
+      obtain ⟨d', hu, hi', hl', hv⟩ := unlink_inv (l := []) hi (by simpa using hl)
       simp only [List.nil_append] at hu hi' hl' hv
       have hpf := popFront_eq_unlink (d := x.d) (a := x.m e.1) (by simpa using hi.head_eq) (by omega) ha.2
       refine ⟨{ x with d := d' }, ?_, ?_⟩
       · simp [MInst.step, hpf, hu, h.vals e (by simp [hys])]
-      · refine ⟨by simpa using hi', by simpa using hl', ?_, ?_, fun _ => hne⟩
+      · refine ⟨by simpa using hi', by simpa using hl', ?_, ?_⟩
         · intro e' he'
           simp only [List.tail_cons] at he'
           rw [hv _ (mem_handles he')]
@@ -387,12 +382,12 @@ theorem inst_step_refines {n : Nat} {x : MInst} {y y' : SInst} {op : Op} {ret : 
       have hi := h.inv; have hl := h.len; rw [hys] at hi hl
       simp only [handles_append, handles_cons, handles_nil] at hi
       have ha := hi.range (x.m e.1) (by simp)
-      obtain ⟨d', hu, hi', hl', hv, hne⟩ := unlink_inv (r := []) hi (by simpa using hl)
+      obtain ⟨d', hu, hi', hl', hv⟩ := unlink_inv (r := []) hi (by simpa using hl)
       simp only [List.append_nil] at hu hi' hl' hv
       have hpf := popBack_eq_unlink (d := x.d) (a := x.m e.1) (by simpa using hi.tail_eq) (by omega) ha.2
       refine ⟨{ x with d := d' }, ?_, ?_⟩
       · simp [MInst.step, hpf, hu, hys, h.vals e (by simp [hys])]
-      · refine ⟨by simpa [hys] using hi', by simpa [hys] using hl', ?_, ?_, fun _ => hne⟩
+      · refine ⟨by simpa [hys] using hi', by simpa [hys] using hl', ?_, ?_⟩
         · intro e' he'
           simp only [hys, List.dropLast_concat] at he'
           rw [hv _ (mem_handles he')]
@@ -411,7 +406,7 @@ theorem inst_step_refines {n : Nat} {x : MInst} {y y' : SInst} {op : Op} {ret : 
       obtain ⟨hi, hl⟩ := h.split_inv hys
       obtain ⟨d', a, hp, hi', hl', hv, hvo⟩ := insertAfter_core hi v
       obtain ⟨x', hc, hr⟩ := created_refines h (p := sl ++ [(id, w)]) (q := sr) (by simp [hys])
-        (by simpa using hi') hl' hv hvo y.alloc
+        (by simpa using hi') hl' hv hvo
       exact ⟨x', by simp [MInst.step, hp, hc], by simpa [Op.creates] using hr⟩
   | insertBefore v id =>
     cases hsp : splitId id y.s with
@@ -424,7 +419,7 @@ theorem inst_step_refines {n : Nat} {x : MInst} {y y' : SInst} {op : Op} {ret : 
       obtain ⟨hi, hl⟩ := h.split_inv hys
       obtain ⟨d', a, hp, hi', hl', hv, hvo⟩ := insertBefore_core hi v
       obtain ⟨x', hc, hr⟩ := created_refines h (p := sl) (q := (id, w) :: sr) (by simp [hys])
-        (by simpa using hi') hl' hv hvo y.alloc
+        (by simpa using hi') hl' hv hvo
       exact ⟨x', by simp [MInst.step, hp, hc], by simpa [Op.creates] using hr⟩
   | moveToFront id =>
     cases hsp : splitId id y.s with
@@ -439,8 +434,7 @@ theorem inst_step_refines {n : Nat} {x : MInst} {y y' : SInst} {op : Op} {ret : 
       have hmem : ∀ e, e ∈ (id, w) :: (sl ++ sr) → e ∈ y.s := by
         intro e he; rw [hys]; simp only [List.mem_cons, List.mem_append] at he ⊢; grind
       refine ⟨{ x with d := d' }, by simp [MInst.step, hp], ?_⟩
-      refine ⟨by simpa using hi', ?_, ?_, fun e he => h.ids e (hmem e he),
-        fun _ => hi'.elements_ne_nil (a := x.m id) (by simp)⟩
+      refine ⟨by simpa using hi', ?_, ?_, fun e he => h.ids e (hmem e he)⟩
       · simp only [hl', h.len, hys, List.length_append, List.length_cons]; omega
       · intro e he; rw [hv]; exact h.vals e (hmem e he)
   | moveToBack id =>
@@ -456,8 +450,7 @@ theorem inst_step_refines {n : Nat} {x : MInst} {y y' : SInst} {op : Op} {ret : 
       have hmem : ∀ e, e ∈ sl ++ sr ++ [(id, w)] → e ∈ y.s := by
         intro e he; rw [hys]; simp only [List.mem_cons, List.mem_append] at he ⊢; grind
       refine ⟨{ x with d := d' }, by simp [MInst.step, hp], ?_⟩
-      refine ⟨by simpa using hi', ?_, ?_, fun e he => h.ids e (hmem e he),
-        fun _ => hi'.elements_ne_nil (a := x.m id) (by simp)⟩
+      refine ⟨by simpa using hi', ?_, ?_, fun e he => h.ids e (hmem e he)⟩
       · simp only [hl', h.len, hys, List.length_append, List.length_cons, List.length_nil]; omega
       · intro e he; rw [hv]; exact h.vals e (hmem e he)
   | update id v =>
@@ -472,8 +465,7 @@ theorem inst_step_refines {n : Nat} {x : MInst} {y y' : SInst} {op : Op} {ret : 
       obtain ⟨hu, hi', hv, hvo⟩ := update_core hi (a := x.m id) (by simp) v
       have hn := hi.nodup
       refine ⟨{ x with d := x.d.setValue (x.m id) v }, by simp [MInst.step, hu], ?_⟩
-      refine ⟨by simpa using hi', by simpa using hl, ?_, ?_,
-        fun _ => hi'.elements_ne_nil (a := x.m id) (by simp)⟩
+      refine ⟨by simpa using hi', by simpa using hl, ?_, ?_⟩
       · intro e he
         simp only [List.mem_append, List.mem_cons] at he
         rcases he with he | rfl | he
@@ -500,24 +492,20 @@ theorem inst_step_refines {n : Nat} {x : MInst} {y y' : SInst} {op : Op} {ret : 
       have hys := splitId_some hsp
       obtain ⟨hi, hl⟩ := h.split_inv hys
       have ha := hi.range (x.m id) (by simp)
-      obtain ⟨d', hu, hi', hl', hv, hne⟩ := unlink_inv hi hl
+      obtain ⟨d', hu, hi', hl', hv⟩ := unlink_inv hi hl
       have hmem : ∀ e, e ∈ sl ++ sr → e ∈ y.s := by
         intro e he; rw [hys]; simp only [List.mem_cons, List.mem_append] at he ⊢; grind
       refine ⟨{ x with d := d' }, by simp [MInst.step, remove_eq_unlink (Nat.ne_of_gt ha.1) ha.2, hu], ?_⟩
-      refine ⟨by simpa using hi', by simpa using hl', ?_, fun e he => h.ids e (hmem e he), fun _ => hne⟩
+      refine ⟨by simpa using hi', by simpa using hl', ?_, fun e he => h.ids e (hmem e he)⟩
       intro e he
       rw [hv _ (by simpa using mem_handles (m := x.m) he)]
       exact h.vals e (hmem e he)
   | reset =>
-    simp only [SInst.step] at hs
-    split at hs
-    · rename_i hal
-      simp only [Option.some.injEq, Prod.mk.injEq] at hs
-      obtain ⟨rfl, rfl⟩ := hs
-      obtain ⟨d', hr, hi', hl', hne⟩ := autoReset_inv h.inv.tmpl (h.alloc hal)
-      refine ⟨{ x with d := d' }, by simp [MInst.step, reset, hr], ?_⟩
-      exact ⟨by simpa using hi', by simpa using hl', by simp, by simp, fun _ => hne⟩
-    · simp at hs
+    simp only [SInst.step, Option.some.injEq, Prod.mk.injEq] at hs
+    obtain ⟨rfl, rfl⟩ := hs
+    obtain ⟨hi', hl'⟩ := autoReset_inv (d := x.d) h.inv.tmpl
+    refine ⟨{ x with d := x.d.reset }, by simp [MInst.step], ?_⟩
+    exact ⟨by simpa [reset] using hi', by simpa [reset] using hl', by simp, by simp⟩
   | range k =>
     simp only [SInst.step, Option.some.injEq, Prod.mk.injEq] at hs
     obtain ⟨rfl, rfl⟩ := hs
@@ -598,11 +586,10 @@ theorem step_refines {st : MState} {sst sst' : SState} {op : Op} {o : Obs} (h : 
       · have hk1 : st.insts.length ≤ k := by omega
         have hk2 : sst.insts.length ≤ k := h.len ▸ hk1
         simp only [List.getElem_append_right hk1, List.getElem_append_right hk2, List.getElem_singleton]
-        refine ⟨?_, ?_, ?_, hri.ids, ?_⟩
+        refine ⟨?_, ?_, ?_, hri.ids⟩
         · simpa [clone_eq] using hri.inv
         · simpa [clone_eq] using hri.len
         · simpa [clone_eq] using hri.vals
-        · simpa [clone_eq] using hri.alloc
   | use k =>
     simp only [SState.step] at hs
     cases hy : sst.insts[k]? with
@@ -628,7 +615,7 @@ theorem step_refines {st : MState} {sst sst' : SState} {op : Op} {o : Obs} (h : 
   | moveToBack id => exact stepCur_refines h hs
   | update id v => exact stepCur_refines h hs
   | remove id => exact stepCur_refines h hs
-  | reset => exact stepCur_refines h hs
+  | reset => exact stepCur_refines (op := .reset) h hs
   | range k => exact stepCur_refines h hs
 
 /-- every operation sequence the reference accepts runs on the model without a panic and with the
@@ -651,14 +638,14 @@ theorem run_refines {st : MState} {sst : SState} (h : R st sst) (ops : List Op) 
         obtain ⟨st', hst, hr⟩ := step_refines h hstep
         simp [MState.run, hst, ih hr os hrun, hs]
 
-theorem init_related {d : Deque} {alloc : Bool} (h : Inv d [] []) (hl : d.length = 0)
-    (ha : alloc = true → d.elements ≠ []) : R (MState.init d) (SState.init alloc) := by
+theorem init_related {d : Deque} (h : Inv d [] []) (hl : d.length = 0) :
+    R (MState.init d) SState.init := by
   refine ⟨rfl, rfl, rfl, ?_⟩
   intro k h1 h2
   simp only [MState.init, List.length_singleton] at h1
   have hk : k = 0 := by omega
   subst hk
   exact ⟨by simpa [MState.init, SState.init] using h, by simpa [MState.init, SState.init] using hl,
-    by simp [SState.init], by simp [SState.init], by simpa [MState.init, SState.init] using ha⟩
+    by simp [SState.init], by simp [SState.init]⟩
 
 end Deque
